@@ -1169,11 +1169,11 @@ theorem restShape_trail (T : Str) (h : TrailOk T) : T = [] ∨ T.head? = some ' 
   · exact Or.inl rfl
   · exact Or.inr rfl
 
-/-- A block collection is not empty; a compact one and the root one start without filler lines. -/
+/-- A block collection is not empty; a compact one starts without filler lines. -/
 def PItems.startOk (items : PItems) (c : Bool) (ctx : Ctx) : Bool :=
-  !items.isNil && (!(c || ctx == .root) || items.firstFillEmpty)
+  !items.isNil && (!c || items.firstFillEmpty)
 def PEntries.startOk (es : PEntries) (c : Bool) (ctx : Ctx) : Bool :=
-  !es.isNil && (!(c || ctx == .root) || es.firstFillEmpty)
+  !es.isNil && (!c || es.firstFillEmpty)
 
 /-- The filler lines before a sequence entry: admissible comments / blank lines, and no blank line
 right after a value that ends in a keep-chomped block scalar. -/
@@ -1270,9 +1270,8 @@ def PNode.bl2 (ctx : Ctx) : PNode → Bool
     es.startOk c ctx && es.bl2 && (if c then ctx == .seq else ctx == .root || 1 ≤ st)
   | .seq true st c items => (PNode.seq true st c items).fl2
   | .map true st c es => (PNode.map true st c es).fl2
-  | .null v => !(ctx == .root && v % 5 == 4)
-  | .str s (.literal ch ind ex) => ctx != .root && strOk false false s (.literal ch ind ex)
-  | .str s (.folded ch ind ex fo) => ctx != .root && strOk false false s (.folded ch ind ex fo)
+  | .str s (.literal ch ind ex) => strOk false (ctx == .root) s (.literal ch ind ex)
+  | .str s (.folded ch ind ex fo) => strOk false (ctx == .root) s (.folded ch ind ex fo)
   | x => x.sc2 false
 def PItems.bl2 : PItems → Bool
   | .nil => true
@@ -1284,33 +1283,29 @@ end
 
 
 theorem startOk_items (items : PItems) (c : Bool) (ctx : Ctx) (h : items.startOk c ctx = true) :
-    items.isNil = false ∧ ((c = true ∨ ctx = .root) → items.firstFillEmpty = true) := by
-  simp only [PItems.startOk, Bool.and_eq_true, Bool.not_eq_true', Bool.or_eq_true, Bool.not_eq_true', Bool.or_eq_false_iff] at h
+    items.isNil = false ∧ (c = true → items.firstFillEmpty = true) := by
+  simp only [PItems.startOk, Bool.and_eq_true, Bool.not_eq_true', Bool.or_eq_true, Bool.not_eq_true'] at h
   refine ⟨h.1, ?_⟩
   intro hc
   rcases h.2 with h2 | h2
-  · rcases hc with hc | hc
-    · rw [hc] at h2; simp at h2
-    · rw [hc] at h2; simp at h2
+  · rw [hc] at h2; cases h2
   · exact h2
 
 theorem startOk_entries (es : PEntries) (c : Bool) (ctx : Ctx) (h : es.startOk c ctx = true) :
-    es.isNil = false ∧ ((c = true ∨ ctx = .root) → es.firstFillEmpty = true) := by
-  simp only [PEntries.startOk, Bool.and_eq_true, Bool.not_eq_true', Bool.or_eq_true, Bool.not_eq_true', Bool.or_eq_false_iff] at h
+    es.isNil = false ∧ (c = true → es.firstFillEmpty = true) := by
+  simp only [PEntries.startOk, Bool.and_eq_true, Bool.not_eq_true', Bool.or_eq_true, Bool.not_eq_true'] at h
   refine ⟨h.1, ?_⟩
   intro hc
   rcases h.2 with h2 | h2
-  · rcases hc with hc | hc
-    · rw [hc] at h2; simp at h2
-    · rw [hc] at h2; simp at h2
+  · rw [hc] at h2; cases h2
   · exact h2
 
 theorem first_fill_items (m : Meta) (x : PNode) (r : PItems) (c : Bool) (ctx : Ctx)
-    (h : (PItems.cons m x r).startOk c ctx = true) (hc : c = true ∨ ctx = .root) : m.fill = [] := by
+    (h : (PItems.cons m x r).startOk c ctx = true) (hc : c = true) : m.fill = [] := by
   have := (startOk_items _ c ctx h).2 hc
   simpa [PItems.firstFillEmpty] using this
 theorem first_fill_entries (m : Meta) (k : Str) (ks : KStyle) (x : PNode) (r : PEntries) (c : Bool) (ctx : Ctx)
-    (h : (PEntries.cons m k ks x r).startOk c ctx = true) (hc : c = true ∨ ctx = .root) : m.fill = [] := by
+    (h : (PEntries.cons m k ks x r).startOk c ctx = true) (hc : c = true) : m.fill = [] := by
   have := (startOk_entries _ c ctx h).2 hc
   simpa [PEntries.firstFillEmpty] using this
 
@@ -1402,7 +1397,7 @@ theorem cwf_of_bl2 : (x : PNode) → ∀ ctx, x.bl2 ctx = true → x.cwf = true
       obtain ⟨hn, hff⟩ := startOk_items items c ctx h.1.1
       cases c with
       | false => simp [PNode.cwf, cwf_of_bl2_items items h.1.2]
-      | true => simp [PNode.cwf, hn, hff (Or.inl rfl), cwf_of_bl2_items items h.1.2]
+      | true => simp [PNode.cwf, hn, hff rfl, cwf_of_bl2_items items h.1.2]
   | .map fl st c es, ctx, h => by
     cases fl with
     | true => simp [PNode.cwf]
@@ -1411,7 +1406,7 @@ theorem cwf_of_bl2 : (x : PNode) → ∀ ctx, x.bl2 ctx = true → x.cwf = true
       obtain ⟨hn, hff⟩ := startOk_entries es c ctx h.1.1
       cases c with
       | false => simp [PNode.cwf, cwf_of_bl2_entries es h.1.2]
-      | true => simp [PNode.cwf, hn, hff (Or.inl rfl), cwf_of_bl2_entries es h.1.2]
+      | true => simp [PNode.cwf, hn, hff rfl, cwf_of_bl2_entries es h.1.2]
   | .null _, _, _ => rfl
   | .bool _ _, _, _ => rfl
   | .int _ _, _, _ => rfl
@@ -1457,7 +1452,7 @@ theorem canon_value : (x : PNode) → ∀ ctx, x.bl2 ctx = true → ∀ (e col :
         | nil => simp [PItems.startOk, PItems.isNil] at h
         | cons m' x r =>
           have hc := canon_items (.cons m' x r) hi (col + m.gap + 1)
-          have hf : m'.fill = [] := first_fill_items m' x r true ctx h.1.1 (Or.inl rfl)
+          have hf : m'.fill = [] := first_fill_items m' x r true ctx h.1.1 rfl
           simp only [PNode.valueR, if_true, PItems.linesR, hf, fillLines, List.map_nil, List.nil_append] at hc ⊢
           have h0 := hc _ (List.mem_cons_self ..)
           refine ⟨Or.inr (by simp [spaces, List.replicate_succ]), ?_, fun l hl => hc l (List.mem_cons_of_mem _ hl)⟩
@@ -1484,7 +1479,7 @@ theorem canon_value : (x : PNode) → ∀ ctx, x.bl2 ctx = true → ∀ (e col :
         | nil => simp [PEntries.startOk, PEntries.isNil] at h
         | cons m' k ks x r =>
           have hc := canon_entries (.cons m' k ks x r) hi (col + m.gap + 1)
-          have hf : m'.fill = [] := first_fill_entries m' k ks x r true ctx h.1.1 (Or.inl rfl)
+          have hf : m'.fill = [] := first_fill_entries m' k ks x r true ctx h.1.1 rfl
           simp only [PNode.valueR, if_true, PEntries.linesR, hf, fillLines, List.map_nil, List.nil_append] at hc ⊢
           have h0 := hc _ (List.mem_cons_self ..)
           refine ⟨Or.inr (by simp [spaces, List.replicate_succ]), ?_, fun l hl => hc l (List.mem_cons_of_mem _ hl)⟩
@@ -1517,8 +1512,8 @@ theorem canon_value : (x : PNode) → ∀ ctx, x.bl2 ctx = true → ∀ (e col :
     obtain ⟨hT, hTok, -⟩ := trail_facts m _ ht
     cases st
     case literal ch ind ex =>
-      simp only [PNode.bl2, Bool.and_eq_true] at h
-      have hs := h.2
+      simp only [PNode.bl2] at h
+      have hs := h
       simp only [strOk, Bool.not_false, Bool.true_and, Bool.and_eq_true, decide_eq_true_eq] at hs
       obtain ⟨⟨⟨⟨⟨hind, h9⟩, hlines⟩, hch⟩, hex⟩, hroot⟩ := hs
       simp only [PNode.valueR]
@@ -1528,9 +1523,9 @@ theorem canon_value : (x : PNode) → ∀ ctx, x.bl2 ctx = true → ∀ (e col :
       · intro l hl
         exact bsLines_canon _ _ (body_lines_printable ch s hlines hch) l hl
     case folded ch ind ex fo =>
-      simp only [PNode.bl2, Bool.and_eq_true] at h
-      have hs := h.2
-      simp only [strOk, Bool.not_false, Bool.true_and, Bool.and_eq_true, decide_eq_true_eq, Bool.false_eq_true, if_false,
+      simp only [PNode.bl2] at h
+      have hs := h
+      simp only [strOk, Bool.not_false, Bool.true_and, Bool.and_eq_true, decide_eq_true_eq,
         bne_iff_ne, ne_eq] at hs
       obtain ⟨⟨⟨⟨⟨⟨⟨⟨⟨hind, h9⟩, hlines⟩, hch⟩, hex⟩, hroot⟩, hsp⟩, hhead⟩, hf⟩, _⟩ := hs
       simp only [PNode.valueR]
@@ -2000,10 +1995,10 @@ theorem Inline3.to2 {X : Str} {nd : Node} (h : Inline3 X nd) : Inline2 X nd :=
 
 theorem parseAfter_inline3 (f g col pn : Nat) (cOk sSame : Bool) (X : Str) (nd : Node) (T : Str) (hT : TrailOk T) (ls : List Line)
     (hf : Inline3 X nd) :
-    parseAfter (f + 1) (spaces (g + 1) ++ X ++ T) col pn cOk sSame ls = .ok (nd, ls) := by
+    parseAfter (f + 1) (spaces g ++ X ++ T) col pn cOk sSame ls = .ok (nd, ls) := by
   obtain ⟨⟨c, r, rfl, hsp, htab, hhash, hbar, hgt, hamp⟩, hdash, hkey, hinl⟩ := hf
-  have hds : dropSpaces (spaces (g + 1) ++ (c :: r) ++ T) = c :: (r ++ T) := by
-    have := dropSpaces_spaces (g + 1) c (r ++ T) hsp
+  have hds : dropSpaces (spaces g ++ (c :: r) ++ T) = c :: (r ++ T) := by
+    have := dropSpaces_spaces g c (r ++ T) hsp
     simpa [List.append_assoc] using this
   have hdash := hdash T hT
   have hkey := hkey T hT
@@ -2416,7 +2411,7 @@ theorem afterL_inline (x : PNode) (ctx : Ctx) (h : x.bl2 ctx = true) (hi : x.isI
     rw [node_of_empty_flow x ctx h hi hne]
     exact parseAfter_empty f' col ctx e rest hb _ hT
   · simp only [hne, if_false, List.nil_append]
-    have := parseAfter_inline3 (f' + 1) m.gap col (pnOf ctx e) (ctx == .seq) (ctx == .map) x.flow x.node _ hT rest
+    have := parseAfter_inline3 (f' + 1) (m.gap + 1) col (pnOf ctx e) (ctx == .seq) (ctx == .map) x.flow x.node _ hT rest
       (inline3_value x ctx h hi hne)
     exact ⟨rest, this, rfl⟩
 
@@ -2503,28 +2498,28 @@ theorem afterL : (x : PNode) → ∀ (ctx : Ctx), x.bl2 ctx = true → ∀ (e co
     afterL_inline _ ctx h rfl e col m ht f rest (by simpa [PNode.bneed] using hf) hb
   | .int i v, ctx, h, e, col, m, ht, _, _, f, rest, hf, hb, _ =>
     afterL_inline _ ctx h rfl e col m ht f rest (by simpa [PNode.bneed] using hf) hb
-  | .str s st, ctx, h, e, col, m, ht, _, _, f, rest, hf, hb, hT => by
+  | .str s st, ctx, h, e, col, m, ht, _, hroot, f, rest, hf, hb, hT => by
     cases st
     case literal ch ind ex =>
-      simp only [PNode.bl2, Bool.and_eq_true, bne_iff_ne, ne_eq] at h
+      simp only [PNode.bl2] at h
       obtain ⟨f', rfl⟩ : ∃ f', f = f' + 1 := ⟨f - 1, by simp [PNode.bneed] at hf; omega⟩
-      have hpn : pnOf ctx e = if false = true then 0 else e + 1 := by simp [pnOf, h.1]
+      have hpn : pnOf ctx e = if (ctx == Ctx.root) = true then 0 else e + 1 := by cases ctx <;> rfl
       have hk : (PNode.str s (.literal ch ind ex)).endsKeep = (ch == .keep) := by cases ch <;> rfl
       rw [hk] at hT
-      have := after_literal f' m.gap col (pnOf ctx e) e (ctx == .seq) (ctx == .map) false s ch ind ex hpn
-        (by intro h'; cases h') h.2 rest hT _ (trailOk_trailText m.trail)
+      have := after_literal f' (m.gap + 1) col (pnOf ctx e) e (ctx == .seq) (ctx == .map) (ctx == .root) s ch ind ex hpn
+        (by intro h'; exact hroot (by simpa using h')) h rest hT _ (trailOk_trailText m.trail)
       simp only [PNode.valueR, PNode.node]
       have e1 : (if ctx = Ctx.root then 0 else e + 1) = pnOf ctx e := rfl
       rw [e1]
       exact ⟨rest.dropWhile blankL, this, skipFill_dropBlank rest⟩
     case folded ch ind ex fo =>
-      simp only [PNode.bl2, Bool.and_eq_true, bne_iff_ne, ne_eq] at h
+      simp only [PNode.bl2] at h
       obtain ⟨f', rfl⟩ : ∃ f', f = f' + 1 := ⟨f - 1, by simp [PNode.bneed] at hf; omega⟩
-      have hpn : pnOf ctx e = e + 1 := by simp [pnOf, h.1]
+      have hpn : pnOf ctx e = if (ctx == Ctx.root) = true then 0 else e + 1 := by cases ctx <;> rfl
       have hk : (PNode.str s (.folded ch ind ex fo)).endsKeep = (ch == .keep) := by cases ch <;> rfl
       rw [hk] at hT
-      have := after_folded f' m.gap col (pnOf ctx e) e (ctx == .seq) (ctx == .map) s ch ind ex fo hpn h.2 rest hT
-        _ (trailOk_trailText m.trail)
+      have := after_folded f' (m.gap + 1) col (pnOf ctx e) e (ctx == .seq) (ctx == .map) (ctx == .root) s ch ind ex fo hpn
+        (by intro h'; exact hroot (by simpa using h')) h rest hT _ (trailOk_trailText m.trail)
       simp only [PNode.valueR, PNode.node]
       have e1 : (if ctx = Ctx.root then 0 else e + 1) = pnOf ctx e := rfl
       rw [e1]
@@ -2600,7 +2595,7 @@ theorem afterL : (x : PNode) → ∀ (ctx : Ctx), x.bl2 ctx = true → ∀ (e co
           · exact h'
           · cases h'
         obtain ⟨hs, _, _⟩ := canon_value x .seq hx (col + m.gap + 1) (col + m.gap + 1 + 1) m' htr
-        have hfl0 : m'.fill = [] := first_fill_items m' x r true .seq hnil (Or.inl rfl)
+        have hfl0 : m'.fill = [] := first_fill_items m' x r true .seq hnil rfl
         simp only [PNode.valueR, if_true, PItems.linesR, hfl0, fillLines, List.map_nil, List.nil_append, List.cons_append,
           PNode.node]
         have hd := (seqLine_facts (col + m.gap + 1) _ hs).1
@@ -2679,7 +2674,7 @@ theorem afterL : (x : PNode) → ∀ (ctx : Ctx), x.bl2 ctx = true → ∀ (e co
         obtain ⟨hs, _, _⟩ := canon_value x .map hx (col + m.gap + 1) (col + m.gap + 1 + (keyText k ks).length + 1) m' htr
         obtain ⟨hsplit, hd, _, _⟩ := keyLine_facts (col + m.gap + 1) k ks hkey _ hs
         obtain ⟨c0, t0, hkt, q1, q2, q3, _, _, q6, _, q8, q9, _⟩ := keyHead_facts k ks hkey
-        have hfl0 : m'.fill = [] := first_fill_entries m' k ks x r true .seq hnil (Or.inl rfl)
+        have hfl0 : m'.fill = [] := first_fill_entries m' k ks x r true .seq hnil rfl
         simp only [PNode.valueR, if_true, PEntries.linesR, hfl0, fillLines, List.map_nil, List.nil_append, List.cons_append,
           PNode.node]
         rw [hkt] at hsplit hd ⊢
@@ -2859,7 +2854,7 @@ theorem bneed_value : (x : PNode) → ∀ ctx, x.bl2 ctx = true → ∀ (e col :
         omega
       | true =>
         have := bneed_items (.cons m' x r) hi (col + m.gap + 1)
-        have hf : m'.fill = [] := first_fill_items m' x r true ctx hnil (Or.inl rfl)
+        have hf : m'.fill = [] := first_fill_items m' x r true ctx hnil rfl
         simp only [PNode.bneed, PNode.valueR, if_true, PItems.linesR, hf, fillLines, List.map_nil, List.nil_append,
           List.length_append, wt_cons, List.length_cons, PItems.isNil, Bool.false_eq_true, if_false] at this ⊢
         simp only [spaces, List.length_replicate]
@@ -2877,7 +2872,7 @@ theorem bneed_value : (x : PNode) → ∀ ctx, x.bl2 ctx = true → ∀ (e col :
         omega
       | true =>
         have := bneed_entries (.cons m' k ks x r) hi (col + m.gap + 1)
-        have hf : m'.fill = [] := first_fill_entries m' k ks x r true ctx hnil (Or.inl rfl)
+        have hf : m'.fill = [] := first_fill_entries m' k ks x r true ctx hnil rfl
         simp only [PNode.bneed, PNode.valueR, if_true, PEntries.linesR, hf, fillLines, List.map_nil, List.nil_append,
           List.length_append, wt_cons, List.length_cons, PEntries.isNil, Bool.false_eq_true, if_false] at this ⊢
         simp only [spaces, List.length_replicate]
@@ -2986,7 +2981,7 @@ theorem nm_value : (x : PNode) → ∀ ctx, x.bl2 ctx = true → ∀ (e col : Na
       | nil => simp [PItems.startOk, PItems.isNil] at h
       | cons m' x r =>
         have hc := nm_items (.cons m' x r) hi (col + m.gap + 1)
-        have hf : m'.fill = [] := first_fill_items m' x r true ctx h.1.1 (Or.inl rfl)
+        have hf : m'.fill = [] := first_fill_items m' x r true ctx h.1.1 rfl
         simp only [PNode.valueR, if_true, PItems.linesR, hf, fillLines, List.map_nil, List.nil_append] at hc ⊢
         exact fun l hl => hc l (List.mem_cons_of_mem _ hl)
   | .map false st c es, ctx, h, e, col, m, ht => by
@@ -3001,7 +2996,7 @@ theorem nm_value : (x : PNode) → ∀ ctx, x.bl2 ctx = true → ∀ (e col : Na
       | nil => simp [PEntries.startOk, PEntries.isNil] at h
       | cons m' k ks x r =>
         have hc := nm_entries (.cons m' k ks x r) hi (col + m.gap + 1)
-        have hf : m'.fill = [] := first_fill_entries m' k ks x r true ctx h.1.1 (Or.inl rfl)
+        have hf : m'.fill = [] := first_fill_entries m' k ks x r true ctx h.1.1 rfl
         simp only [PNode.valueR, if_true, PEntries.linesR, hf, fillLines, List.map_nil, List.nil_append] at hc ⊢
         exact fun l hl => hc l (List.mem_cons_of_mem _ hl)
   | .seq true st c items, ctx, h, e, col, m, ht => by rw [valueR_inline _ ctx h rfl e col m]; simp
@@ -3012,22 +3007,22 @@ theorem nm_value : (x : PNode) → ∀ ctx, x.bl2 ctx = true → ∀ (e col : Na
   | .str s st, ctx, h, e, col, m, ht => by
     cases st
     case literal ch ind ex =>
-      simp only [PNode.bl2, Bool.and_eq_true, bne_iff_ne, ne_eq] at h
-      have hs := h.2
+      simp only [PNode.bl2] at h
+      have hs := h
       simp only [strOk, Bool.not_false, Bool.true_and, Bool.and_eq_true, decide_eq_true_eq] at hs
       obtain ⟨⟨⟨⟨⟨hind, h9⟩, hlines⟩, hch⟩, hex⟩, hroot⟩ := hs
-      simp only [PNode.valueR, h.1, if_false]
+      simp only [PNode.valueR]
       intro l hl
-      exact bsLines_notMark _ (by simp at hind; omega) _ (body_lines_ok ch s hlines hch) l hl
+      exact bsLines_notMark _ (by cases ctx <;> simp at hind ⊢ <;> omega) _ (body_lines_ok ch s hlines hch) l hl
     case folded ch ind ex fo =>
-      simp only [PNode.bl2, Bool.and_eq_true, bne_iff_ne, ne_eq] at h
-      have hs := h.2
-      simp only [strOk, Bool.not_false, Bool.true_and, Bool.and_eq_true, decide_eq_true_eq, Bool.false_eq_true, if_false,
+      simp only [PNode.bl2] at h
+      have hs := h
+      simp only [strOk, Bool.not_false, Bool.true_and, Bool.and_eq_true, decide_eq_true_eq,
         bne_iff_ne, ne_eq] at hs
       obtain ⟨⟨⟨⟨⟨⟨⟨⟨⟨hind, h9⟩, hlines⟩, hch⟩, hex⟩, hroot⟩, hsp⟩, hhead⟩, hf⟩, _⟩ := hs
-      simp only [PNode.valueR, h.1, if_false]
+      simp only [PNode.valueR]
       intro l hl
-      exact bsLines_notMark _ (by omega) _
+      exact bsLines_notMark _ (by cases ctx <;> simp at hind ⊢ <;> omega) _
         (fun l hl => bodyOk_of_headOk l (folded_lines_ok fo ch s hch hlines hsp hhead hf l hl).1) l hl
     all_goals (rw [valueR_inline _ ctx h rfl e col m]; simp)
   | .anchored a n, ctx, h, _, _, _, _ => by simp [PNode.bl2, PNode.sc2] at h
@@ -3068,387 +3063,5 @@ theorem takeDoc_notMark (ls : List Line) (h : ∀ l ∈ ls, l.notMark) : takeDoc
     simp [takeDoc, h1, h2, this]
 
 
-/-! ## Layer 2: one bare document -/
-
-/-- One bare document (no `---`, no `...`, no filler lines, no trailing comment on the root). -/
-def bareStream (x : PNode) (g : Nat) : PStream := { docs := [{ root := x, rootMeta := { gap := g } }] }
-
-/-- The lines of a bare layer-2 document. -/
-def docLines (x : PNode) (g : Nat) : List Line :=
-  if x.isInline2 then [⟨0, x.flow⟩] else (x.valueR .root 0 0 { gap := g }).2
-
-theorem flow_ne_nil_root (x : PNode) (h : x.bl2 .root = true) (hi : x.isInline2 = true) : x.flow ≠ [] := by
-  intro he
-  cases x with
-  | null v =>
-    have : nullText v = [] := by simpa [PNode.flow] using he
-    by_cases h4 : v % 5 = 4
-    · simp [PNode.bl2, h4] at h
-    · exact (tokOk_nullText v h4).2.1 this
-  | bool b v => exact (tokOk_boolText b v).2.1 (by simpa [PNode.flow] using he)
-  | int i v => exact (intText_facts i v).1.2.1 (by simpa [PNode.flow] using he)
-  | str s st =>
-    have := node_of_empty_flow _ .root h hi he
-    cases st <;> simp [PNode.node] at this
-    · have hs : plainSafe false s = true := by simp [PNode.bl2, PNode.sc2] at h; exact h.1
-      subst this; simp [plainSafe, plainFirstOk] at hs
-  | seq fl st c items => cases fl <;> simp [PNode.flow, PNode.isInline2] at he hi
-  | map fl st c es => cases fl <;> simp [PNode.flow, PNode.isInline2] at he hi
-  | anchored a n => simp [PNode.bl2, PNode.sc2] at h
-  | alias a t => simp [PNode.bl2, PNode.sc2] at h
-
-theorem root_not_str (x : PNode) (h : x.bl2 .root = true) (hi : x.isInline2 = false) : ∀ s st, x ≠ .str s st := by
-  intro s st e
-  subst e
-  cases st <;> simp_all [PNode.isInline2, PNode.bl2, PNode.sc2]
-
-theorem root_coll_of_not_inline (x : PNode) (h : x.bl2 .root = true) (hi : x.isInline2 = false) : x.isBlockColl = true := by
-  cases x with
-  | str s st => exact absurd rfl (root_not_str _ h hi s st)
-  | seq fl st c items => cases fl <;> simp_all [PNode.isInline2, PNode.isBlockColl]
-  | map fl st c es => cases fl <;> simp_all [PNode.isInline2, PNode.isBlockColl]
-  | _ => simp [PNode.isInline2] at hi
-
-theorem chars_bare (x : PNode) (g : Nat) (h : x.bl2 .root = true) : (bareStream x g).chars = joinRaw (docLines x g) := by
-  have hcwf := cwf_of_bl2 x .root h
-  simp only [PStream.chars, bareStream, List.flatMap_cons, List.flatMap_nil, List.append_nil, flatMap_lf]
-  simp only [PDoc.text, fillText, List.flatMap_nil, List.nil_append, Bool.false_eq_true, if_false, List.append_nil,
-    Option.isNone_none, Bool.and_true, value_eq x hcwf]
-  by_cases hi : x.isInline2 = true
-  · have hb : x.isBlockColl = false := by
-      cases x <;> simp [PNode.isInline2, PNode.isBlockColl] at hi ⊢
-      all_goals (rename_i fl _ _ _; cases fl <;> simp_all [PNode.isInline2, PNode.isBlockColl])
-    have hne := flow_ne_nil_root x h hi
-    rw [valueR_inline x .root h hi 0 0 { gap := g }]
-    simp only [trailText, List.append_nil, hb, Bool.false_eq_true, if_false, hne, docLines, hi, if_true, joinRaw, List.flatMap_cons,
-      List.flatMap_nil, List.append_nil, Line.raw, spaces, List.replicate_zero, List.nil_append]
-    obtain ⟨⟨c, r, hx, hsp, _⟩, _⟩ := inline2_value x .root h hi hne
-    rw [hx]
-    have := dropSpaces_spaces (g + 1) c (r ++ '\n' :: []) hsp
-    simpa [dropSpaces, spaces, List.append_assoc] using this
-  · have hi' : x.isInline2 = false := by simpa using hi
-    have hb : x.isBlockColl = true := root_coll_of_not_inline x h hi'
-    have hr1 : (x.valueR .root 0 0 { gap := g }).1 = [] := by
-      cases x with
-      | seq fl st c items =>
-        cases fl with
-        | true => simp [PNode.isInline2] at hi'
-        | false =>
-          have hc : c = false := by
-            simp only [PNode.bl2, Bool.and_eq_true] at h
-            cases c
-            · rfl
-            · simp at h
-          subst hc; simp [PNode.valueR, trailText]
-      | map fl st c es =>
-        cases fl with
-        | true => simp [PNode.isInline2] at hi'
-        | false =>
-          have hc : c = false := by
-            simp only [PNode.bl2, Bool.and_eq_true] at h
-            cases c
-            · rfl
-            · simp at h
-          subst hc; simp [PNode.valueR, trailText]
-      | str s st => exact absurd rfl (root_not_str _ h hi' s st)
-      | _ => simp [PNode.isInline2] at hi'
-    simp only [hb, if_true, hr1, List.nil_append, List.drop_succ_cons, List.drop_zero, docLines, hi', Bool.false_eq_true,
-      if_false]
-
-
-theorem keyHead_more (k : Str) (ks : KStyle) (h : keyOk false k ks = true) :
-    ∃ c t, keyText k ks = c :: t ∧ c ≠ '﻿' ∧ c ≠ '%' := by
-  cases ks with
-  | plain =>
-    simp only [keyOk, Bool.and_eq_true] at h
-    have hs := h.1.1
-    simp only [plainSafe, Bool.and_eq_true] at hs
-    obtain ⟨c, t, rfl, hc⟩ := plainFirst_head false k hs.1.1.1.1.2
-    have hp : isPrintable c = true := by
-      have := hs.1.1.1.1.1; simp only [List.all_cons, Bool.and_eq_true] at this; exact this.1
-    exact ⟨c, t, rfl, by intro e; subst e; exact absurd hp (by decide), plainHead_ne c hc '%' (by decide)⟩
-  | single => exact ⟨'\'', _, rfl, by decide, by decide⟩
-  | double sh eu => exact ⟨'"', _, rfl, by decide, by decide⟩
-
-/-- Head of the first line of a bare layer-2 document. -/
-theorem docLines_head (x : PNode) (g : Nat) (h : x.bl2 .root = true) :
-    ∃ c t ls, docLines x g = ⟨0, c :: t⟩ :: ls ∧ c ≠ '﻿' ∧ c ≠ '%' ∧ c ≠ '#' := by
-  by_cases hi : x.isInline2 = true
-  · have hne := flow_ne_nil_root x h hi
-    obtain ⟨⟨c, r, hx, hsp, _, hhash, _⟩, _⟩ := inline2_value x .root h hi hne
-    refine ⟨c, r, [], by simp [docLines, hi, hx], ?_, ?_, hhash⟩
-    · -- BOM
-      intro e; subst e
-      have hok := okc_inline2 x .root h hi
-      cases x with
-      | null v =>
-        have h4 : v % 5 ≠ 4 := by intro h4; apply hne; simp [PNode.flow, nullText, h4]
-        have := (tokOk_nullText v h4).1
-        rw [show nullText v = (PNode.null v).flow from rfl, hx] at this
-        simp only [List.all_cons, Bool.and_eq_true] at this; exact absurd this.1 (by decide)
-      | bool b v =>
-        have := (tokOk_boolText b v).1
-        rw [show boolText b v = (PNode.bool b v).flow from rfl, hx] at this
-        simp only [List.all_cons, Bool.and_eq_true] at this; exact absurd this.1 (by decide)
-      | int i v =>
-        have := (intText_facts i v).1.1
-        rw [show intText i v = (PNode.int i v).flow from rfl, hx] at this
-        simp only [List.all_cons, Bool.and_eq_true] at this; exact absurd this.1 (by decide)
-      | str s st =>
-        cases st with
-        | plain =>
-          have hs : plainSafe false s = true := by simp [PNode.bl2, PNode.sc2] at h; exact h.1
-          simp only [plainSafe, Bool.and_eq_true] at hs
-          have hp := hs.1.1.1.1.1
-          have : s = '﻿' :: r := by simpa [PNode.flow, strFlowText] using hx
-          rw [this] at hp
-          simp only [List.all_cons, Bool.and_eq_true] at hp; exact absurd hp.1 (by decide)
-        | single => simp [PNode.flow, strFlowText, sqText] at hx
-        | double sh eu => simp [PNode.flow, strFlowText, dqText] at hx
-        | literal ch ind ex => simp [PNode.isInline2] at hi
-        | folded ch ind ex fo => simp [PNode.isInline2] at hi
-      | seq fl st c items => cases fl <;> simp [PNode.flow, PNode.isInline2] at hx hi
-      | map fl st c es => cases fl <;> simp [PNode.flow, PNode.isInline2] at hx hi
-      | anchored a n => simp [PNode.bl2, PNode.sc2] at h
-      | alias a t => simp [PNode.bl2, PNode.sc2] at h
-    · -- %
-      intro e; subst e
-      cases x with
-      | null v =>
-        have h4 : v % 5 ≠ 4 := by intro h4; apply hne; simp [PNode.flow, nullText, h4]
-        have := (tokOk_nullText v h4).1
-        rw [show nullText v = (PNode.null v).flow from rfl, hx] at this
-        simp only [List.all_cons, Bool.and_eq_true] at this; exact absurd this.1 (by decide)
-      | bool b v =>
-        have := (tokOk_boolText b v).1
-        rw [show boolText b v = (PNode.bool b v).flow from rfl, hx] at this
-        simp only [List.all_cons, Bool.and_eq_true] at this; exact absurd this.1 (by decide)
-      | int i v =>
-        have := (intText_facts i v).1.1
-        rw [show intText i v = (PNode.int i v).flow from rfl, hx] at this
-        simp only [List.all_cons, Bool.and_eq_true] at this; exact absurd this.1 (by decide)
-      | str s st =>
-        cases st with
-        | plain =>
-          have hs : plainSafe false s = true := by simp [PNode.bl2, PNode.sc2] at h; exact h.1
-          simp only [plainSafe, Bool.and_eq_true] at hs
-          obtain ⟨c', t', hk', hc'⟩ := plainFirst_head false s hs.1.1.1.1.2
-          have : s = '%' :: r := by simpa [PNode.flow, strFlowText] using hx
-          rw [this] at hk'
-          exact plainHead_ne c' hc' '%' (by decide) (List.cons.inj hk').1.symm
-        | single => simp [PNode.flow, strFlowText, sqText] at hx
-        | double sh eu => simp [PNode.flow, strFlowText, dqText] at hx
-        | literal ch ind ex => simp [PNode.isInline2] at hi
-        | folded ch ind ex fo => simp [PNode.isInline2] at hi
-      | seq fl st c items => cases fl <;> simp [PNode.flow, PNode.isInline2] at hx hi
-      | map fl st c es => cases fl <;> simp [PNode.flow, PNode.isInline2] at hx hi
-      | anchored a n => simp [PNode.bl2, PNode.sc2] at h
-      | alias a t => simp [PNode.bl2, PNode.sc2] at h
-  · have hi' : x.isInline2 = false := by simpa using hi
-    cases x with
-    | seq fl st c items =>
-      cases fl with
-      | true => simp [PNode.isInline2] at hi'
-      | false =>
-        simp only [PNode.bl2, Bool.and_eq_true, Bool.not_eq_true'] at h
-        obtain ⟨⟨hnil, hb⟩, hc⟩ := h
-        have hcf : c = false := by cases c <;> simp_all
-        subst hcf
-        cases items with
-        | nil => simp [PItems.startOk, PItems.isNil] at hnil
-        | cons m' y r =>
-          have hf : m'.fill = [] := first_fill_items m' y r false .root hnil (Or.inr rfl)
-          refine ⟨'-', (y.valueR .seq 0 1 m').1, (y.valueR .seq 0 1 m').2 ++ r.linesR 0, ?_, by decide, by decide, by decide⟩
-          simp [docLines, PNode.isInline2, PNode.valueR, PItems.linesR, hf, fillLines]
-    | map fl st c es =>
-      cases fl with
-      | true => simp [PNode.isInline2] at hi'
-      | false =>
-        simp only [PNode.bl2, Bool.and_eq_true, Bool.not_eq_true'] at h
-        obtain ⟨⟨hnil, hb⟩, hc⟩ := h
-        have hcf : c = false := by cases c <;> simp_all
-        subst hcf
-        cases es with
-        | nil => simp [PEntries.startOk, PEntries.isNil] at hnil
-        | cons m' k ks y r =>
-          have hf : m'.fill = [] := first_fill_entries m' k ks y r false .root hnil (Or.inr rfl)
-          have hk : keyOk false k ks = true := by simp [PEntries.bl2] at hb; exact hb.1.1.2
-          obtain ⟨c0, t0, hkt, q1, q2⟩ := keyHead_more k ks hk
-          obtain ⟨c1, t1, hkt1, _, hh, _⟩ := keyHead_facts k ks hk
-          have q3 : c0 ≠ '#' := by
-            rw [hkt] at hkt1; rw [(List.cons.inj hkt1).1]; exact hh
-          refine ⟨c0, t0 ++ ':' :: (y.valueR .map 0 (0 + (keyText k ks).length + 1) m').1,
-            (y.valueR .map 0 (0 + (keyText k ks).length + 1) m').2 ++ r.linesR 0, ?_, q1, q2, q3⟩
-          simp only [docLines, PNode.isInline2, Bool.false_eq_true, if_false, PNode.valueR, PEntries.linesR, hf, fillLines,
-            List.map_nil, List.nil_append, hkt, List.cons_append, if_true]
-    | str s st => exact absurd rfl (root_not_str _ h hi' s st)
-    | _ => simp [PNode.isInline2] at hi'
-
-
-theorem docLines_canon (x : PNode) (g : Nat) (h : x.bl2 .root = true) : ∀ l ∈ docLines x g, l.canon := by
-  by_cases hi : x.isInline2 = true
-  · have hne := flow_ne_nil_root x h hi
-    obtain ⟨⟨c, r, hx, hsp, _⟩, _⟩ := inline2_value x .root h hi hne
-    intro l hl
-    simp only [docLines, hi, if_true, List.mem_singleton] at hl
-    subst hl
-    exact ⟨by rw [hx]; simpa using hsp, okc_inline2 x .root h hi⟩
-  · have hi' : x.isInline2 = false := by simpa using hi
-    simp only [docLines, hi', Bool.false_eq_true, if_false]
-    exact (canon_value x .root h 0 0 { gap := g } rfl).2.2
-
-theorem docLines_notMark (x : PNode) (g : Nat) (h : x.bl2 .root = true) : ∀ l ∈ docLines x g, l.notMark := by
-  by_cases hi : x.isInline2 = true
-  · intro l hl
-    simp only [docLines, hi, if_true, List.mem_singleton] at hl
-    subst hl
-    have hne := flow_ne_nil_root x h hi
-    -- a root scalar or flow collection: tokens and plain scalars never start with a marker
-    have e1 : "---".toList = ['-', '-', '-'] := by decide
-    have e2 : "...".toList = ['.', '.', '.'] := by decide
-    have key : ("---".toList).isPrefixOf x.flow = false ∧ ("...".toList).isPrefixOf x.flow = false := by
-      cases x with
-      | null v =>
-        refine ⟨notMarker_null v, ?_⟩
-        have h4 : v % 5 ≠ 4 := by intro h4; apply hne; simp [PNode.flow, nullText, h4]
-        have ht := tokOk_nullText v h4
-        obtain ⟨c, r, hx, hc⟩ := headClass_tok _ ht
-        simp only [PNode.flow]; rw [hx, e2]
-        have : ('.' == c) = false := by
-          have := headClass_ne c hc '.' (by decide); simp [Ne.symm this]
-        simp [List.isPrefixOf, this]
-      | bool b v =>
-        refine ⟨notMarker_bool b v, ?_⟩
-        obtain ⟨c, r, hx, hc⟩ := headClass_tok _ (tokOk_boolText b v)
-        simp only [PNode.flow]; rw [hx, e2]
-        have : ('.' == c) = false := by
-          have := headClass_ne c hc '.' (by decide); simp [Ne.symm this]
-        simp [List.isPrefixOf, this]
-      | int i v =>
-        refine ⟨(intText_facts i v).2.2, ?_⟩
-        obtain ⟨c, r, hx, hc⟩ := headClass_tok _ (intText_facts i v).1
-        simp only [PNode.flow]; rw [hx, e2]
-        have : ('.' == c) = false := by
-          have := headClass_ne c hc '.' (by decide); simp [Ne.symm this]
-        simp [List.isPrefixOf, this]
-      | str s st =>
-        cases st with
-        | plain =>
-          have hs : plainSafe false s = true := by simp [PNode.bl2, PNode.sc2] at h; exact h.1
-          simp only [plainSafe, Bool.and_eq_true, Bool.not_eq_true'] at hs
-          exact ⟨hs.1.2, hs.2⟩
-        | single => exact ⟨by simp [PNode.flow, strFlowText, sqText, e1, List.isPrefixOf], by simp [PNode.flow, strFlowText, sqText, e2, List.isPrefixOf]⟩
-        | double sh eu => exact ⟨by simp [PNode.flow, strFlowText, dqText, e1, List.isPrefixOf], by simp [PNode.flow, strFlowText, dqText, e2, List.isPrefixOf]⟩
-        | literal ch ind ex => simp [PNode.isInline2] at hi
-        | folded ch ind ex fo => simp [PNode.isInline2] at hi
-      | seq fl st c items =>
-        cases fl with
-        | true => exact ⟨by simp [PNode.flow, e1, List.isPrefixOf], by simp [PNode.flow, e2, List.isPrefixOf]⟩
-        | false => simp [PNode.isInline2] at hi
-      | map fl st c es =>
-        cases fl with
-        | true => exact ⟨by simp [PNode.flow, e1, List.isPrefixOf], by simp [PNode.flow, e2, List.isPrefixOf]⟩
-        | false => simp [PNode.isInline2] at hi
-      | anchored a n => simp [PNode.bl2, PNode.sc2] at h
-      | alias a t => simp [PNode.bl2, PNode.sc2] at h
-    exact ⟨by simp only [isDocStart, isMarker, key.1, Bool.and_false, Bool.false_and],
-      by simp only [isDocEnd, isMarker, key.2, Bool.and_false, Bool.false_and]⟩
-  · have hi' : x.isInline2 = false := by simpa using hi
-    simp only [docLines, hi', Bool.false_eq_true, if_false]
-    exact nm_value x .root h 0 0 { gap := g } rfl
-
-/-- The body of a bare layer-2 document. -/
-theorem parseDocBody_block2 (x : PNode) (g : Nat) (h : x.bl2 .root = true) :
-    parseDocBody none (docLines x g) = .ok x.node := by
-  unfold parseDocBody
-  simp only [Option.getD_none, List.length_nil, Nat.zero_mul, Nat.add_zero, fuelOf_wt]
-  by_cases hi : x.isInline2 = true
-  · have hne := flow_ne_nil_root x h hi
-    obtain ⟨⟨c, r, hx, hsp, htab, hhash, hbar, hgt, hamp⟩, hdash, hkey, hinl⟩ := inline2_value x .root h hi hne
-    simp only [docLines, hi, if_true, hx] at *
-    have : ∃ f, wt [⟨0, c :: r⟩] * 4 + 8 = f + 2 := ⟨wt [⟨0, c :: r⟩] * 4 + 6, by omega⟩
-    obtain ⟨f, hf⟩ := this
-    rw [hf, parseBlock_inline f c r x.node hsp htab hhash hbar hgt hamp hdash hkey hinl]
-    simp [skipFill]
-  · have hi' : x.isInline2 = false := by simpa using hi
-    simp only [docLines, hi', Bool.false_eq_true, if_false]
-    have hb := bneed_value x .root h 0 0 { gap := g }
-    have hr1 : (x.valueR .root 0 0 { gap := g }).1 = [] := by
-      cases x with
-      | seq fl st c items =>
-        cases fl with
-        | true => simp [PNode.isInline2] at hi'
-        | false =>
-          have hc : c = false := by
-            simp only [PNode.bl2, Bool.and_eq_true] at h
-            cases c
-            · rfl
-            · simp at h
-          subst hc; simp [PNode.valueR, trailText]
-      | map fl st c es =>
-        cases fl with
-        | true => simp [PNode.isInline2] at hi'
-        | false =>
-          have hc : c = false := by
-            simp only [PNode.bl2, Bool.and_eq_true] at h
-            cases c
-            · rfl
-            · simp at h
-          subst hc; simp [PNode.valueR, trailText]
-      | str s st => exact absurd rfl (root_not_str _ h hi' s st)
-      | _ => simp [PNode.isInline2] at hi'
-    have hA := afterL x .root h 0 0 { gap := g } rfl (Or.inr rfl) (fun _ => rfl)
-      (wt (x.valueR .root 0 0 { gap := g }).2 * 4 + 8 + 1) [] (by rw [hr1] at hb; simp at hb; omega) (by simp [Bound, skipFill])
-      (Tail_nil _ _)
-    rw [hr1, parseAfter_nil] at hA
-    simp only [pnOf, if_true, show (Ctx.root == Ctx.map) = false by rfl, List.append_nil] at hA
-    obtain ⟨rest', hp, hsk⟩ := hA
-    rw [hp]
-    simp only [hsk, skipFill, List.isEmpty_nil, if_true]
-
-/-- Layer 2 on characters: a bare document whose root is a layer-2 node. -/
-theorem loadChars_block2 (x : PNode) (g : Nat) (h : x.bl2 .root = true) :
-    loadChars (bareStream x g).chars = .ok [x.tree] := by
-  rw [chars_bare x g h]
-  have hcan := docLines_canon x g h
-  obtain ⟨c, t, ls, hL, hbom, hpct, hhash⟩ := docLines_head x g h
-  unfold loadChars
-  have e0 : stripBom (joinRaw (docLines x g)) = joinRaw (docLines x g) := by
-    rw [hL, joinRaw_cons]
-    simp only [Line.raw, spaces, List.replicate_zero, List.nil_append, List.cons_append]
-    unfold stripBom
-    split
-    · rename_i heq; exact absurd (List.cons.inj heq).1 hbom
-    · rfl
-  rw [e0, normBreaks_id _ (nocr_joinRaw _ hcan), linesOf_joinRaw _ hcan]
-  unfold loadLines
-  have hnm := docLines_notMark x g h
-  have hbody := parseDocBody_block2 x g h
-  rw [hL] at hnm hbody ⊢
-  obtain ⟨hs, he⟩ := hnm _ (List.mem_cons_self ..)
-  have hd := parseDocs_oneDoc (ls.length + 1) ⟨0, c :: t⟩ ls x.node (by simp [Line.isFiller, hhash]) (by simpa using hpct) hs he
-    (takeDoc_notMark _ hnm) hbody
-  have hlen : (⟨0, c :: t⟩ :: ls : List Line).length + 2 = ls.length + 1 + 2 := by simp
-  rw [hlen, hd]
-  simp only [resolveDocs, resolveB x .root h []]
-  rfl
-
-
-theorem lfChars_bare (x : PNode) (g : Nat) (h : x.bl2 .root = true) : (bareStream x g).lfChars = joinRaw (docLines x g) := by
-  have := chars_bare x g h
-  rw [chars_eq_sub] at this
-  simp only [bareStream, subBreaks, flatMap_lf] at this
-  exact this
-
-/-- Layers 2 + 5: the same document under LF, CRLF or CR line breaks. -/
-theorem loadChars_block2_breaks (x : PNode) (g : Nat) (b : Break) (h : x.bl2 .root = true) :
-    loadChars ({ bareStream x g with br := b } : PStream).chars = .ok [x.tree] := by
-  have e : ({ bareStream x g with br := b } : PStream).lfChars = (bareStream x g).lfChars := rfl
-  have hnocr : (bareStream x g).lfChars.all (· != '\r') = true := by
-    rw [lfChars_bare x g h]; exact nocr_joinRaw _ (docLines_canon x g h)
-  rw [loadChars_breaks _ (by rw [e]; exact hnocr), e]
-  have h0 := loadChars_block2 x g h
-  rw [loadChars_breaks _ hnocr] at h0
-  exact h0
 
 end SV.YamlRef
